@@ -1476,6 +1476,12 @@ def _sym_info(k):
                     empty = num(lo) > num(hi)
                     break
         out[s.name] = (K.TYPE_TO_STR[s.orig_type], s.visibility, empty)
+    # numeric targets of a `set` / `set default` whose operand is a symbol: str_value takes the operand's name for a
+    # malformed literal and the result depends on the evaluation history (KNOWN_FINDINGS: precedence:<type>:set-sym)
+    out["__setsym__"] = set(
+        s.name for s in k.unique_defined_syms if s.orig_type in _NUMERIC and any(
+            not (K.is_float(v.name) if s.orig_type == K.FLOAT else K._is_base_n(v.name, 16 if s.orig_type == K.HEX else 10))
+            for v, _c, _s in list(s.rev_values) + list(s.weak_rev_values)))
     return out
 
 
@@ -1496,7 +1502,9 @@ def _dirty_cause(D, W, info):
         ea, eb = a.get(n), b.get(n)
         if empty:
             continue
-        if ea is not None and eb is not None and typ in ("int", "hex", "float") and ea == ("", False) and eb == ("", True):
+        if n in info.get("__setsym__", ()):
+            causes.add(":numeric-target-of-set-with-symbol-operand")
+        elif ea is not None and eb is not None and typ in ("int", "hex", "float") and ea == ("", False) and eb == ("", True):
             # unmarked `CONFIG_X=` (a user value that has no effect + no default): not loadable, comes back marked
             causes.add(":valueless-%s-with-ineffective-user-value:marker-gained" % typ)
         elif ea is not None and ea[1] and vis == 0:
